@@ -382,8 +382,22 @@ func runC07(c *Ctx) {
 		}
 		// or: the value is a re-load of URL.Path, which a dominating store filled from the builder
 		if lf := LoadedField(w.Store.Val); lf != nil && N(lf) == "Path" && lf.Pkg() != nil && lf.Pkg().Path() == "net/url" {
+			ld, _ := strip(w.Store.Val).(ssa.Instruction)
 			for _, w2 := range FieldWrites(handleFn) {
-				if w2.Field == lf && instrBefore(w2.Store, w.Store) && fromBuilder(w2.Store.Val) {
+				if w2.Field != lf || !instrBefore(w2.Store, w.Store) || !fromBuilder(w2.Store.Val) || ld == nil {
+					continue
+				}
+				// the load must see the builder's value: it is reached from the builder's store
+				// without passing another store to URL.Path (e.g. the unescaped form)
+				otherPathStore := func(in ssa.Instruction) bool {
+					st, ok := in.(*ssa.Store)
+					if !ok || st == w2.Store {
+						return false
+					}
+					fa, ok := st.Addr.(*ssa.FieldAddr)
+					return ok && FieldOfAddr(fa) == lf
+				}
+				if found, _ := (PathQuery{Target: func(in ssa.Instruction) bool { return in == ld }, Avoid: otherPathStore}).Search(handleFn, w2.Store); found {
 					okRaw = true
 				}
 			}
@@ -391,6 +405,85 @@ func runC07(c *Ctx) {
 	}
 	c.Check(okRaw && nRawStores > 0, "C07.7", FuncName(handleFn), "rawpath-keeps-escaped-form", handleFn.Pos(),
 		"URL.RawPath is stored from the request-line builder's own (escaped) path", "the escaped path computed for the backend is not preserved in URL.RawPath: net/url re-escapes the decoded path with a smaller escape set, so '/', ':' ... inside a variable value change the segment structure and the request no longer re-parses to the original message")
+
+	// ---------------------------------------------------------------- C07.8
+	// A google.api.HttpBody request body carries two things: the bytes and the Content-Type.  The
+	// content type must be bound whatever the length of the body - an empty upload still has one.
+	c.Rule("C07.8", "the request's content type is bound into an HttpBody body field independently of the body's length", 1)
+	{
+		ctF := p.MustField("operation", "reqContentType")
+		nCT := 0
+		for _, fn := range p.Funcs {
+			if !p.inScope(fn) {
+				continue
+			}
+			for _, call := range Calls(fn) {
+				cc := call.Common()
+				if !cc.IsInvoke() || N(cc.Method) != "Set" || len(cc.Args) != 2 {
+					continue
+				}
+				fromCT := false
+				for _, l := range Origins(cc.Args[1]) {
+					if l.Kind == "call" {
+						for _, a := range l.Call.Common().Args {
+							for _, l2 := range Origins(a) {
+								if l2.Kind == "load" && l2.Field == ctF {
+									fromCT = true
+								}
+							}
+						}
+					}
+					if l.Kind == "load" && l.Field == ctF {
+						fromCT = true
+					}
+				}
+				if !fromCT {
+					continue
+				}
+				nCT++
+				// no dominating fact may exclude the empty body
+				excluded := ""
+				for _, f := range p.FactsAtInter(call.Block()) {
+					cmp, ok := f.AsCmp()
+					if !ok {
+						continue
+					}
+					lc, isLen := cmp.X.(*ssa.Call)
+					if !isLen || CalleeName(lc) != "builtin len" {
+						continue
+					}
+					if _, isParam := strip(lc.Call.Args[0]).(*ssa.Parameter); !isParam {
+						continue
+					}
+					k, isK := ConstInt(cmp.Y)
+					if !isK {
+						continue
+					}
+					// the fact holds at the call: does it rule out len == 0 ?
+					rulesOut := false
+					switch cmp.Op {
+					case token.GTR:
+						rulesOut = k >= 0
+					case token.GEQ:
+						rulesOut = k >= 1
+					case token.NEQ:
+						rulesOut = k == 0
+					case token.EQL:
+						rulesOut = k != 0
+					}
+					if rulesOut {
+						excluded = p.Pos(f.If.Pos())
+					}
+				}
+				c.Check(excluded == "", "C07.8", FuncName(fn), "content-type-bound-for-empty-body", call.Pos(),
+					"the content type is stored into the HttpBody field on a path that an empty body also takes",
+					"the HttpBody content_type is only set when the body is non-empty (test at "+excluded+"): a zero-length upload loses its Content-Type and the body field's presence, so the REST request does not bind to the message the same content would give")
+			}
+		}
+		if nCT == 0 {
+			c.Bad("C07.8", "rest", "content-type-bound-for-empty-body", token.NoPos, "the request content type is never bound into a message field: shape changed")
+		}
+	}
 
 	// ---------------------------------------------------------------- C07.6
 	c.Rule("C07.6", "query parameters generated inside loops are added, not overwritten", 1)
